@@ -1734,7 +1734,7 @@ static void bufr_put_desc_value ( BUFR_Message *bufr, BufrDescriptor *bd )
             {
             char  errmsgl[2048];
 
-            sprintf( errmsgl, _n("STR: \"%s\" (%d bit) ", "STR: \"%s\" (%d bits) ", bd->encoding.nbits), strval, bd->encoding.nbits );
+            snprintf( errmsgl, sizeof(errmsgl), _n("STR: \"%s\" (%d bit) ", "STR: \"%s\" (%d bits) ", bd->encoding.nbits), strval, bd->encoding.nbits );
             bufr_print_debug( errmsgl );
             }
          bufr_put_padstring( bufr, strval, blen, bd->encoding.nbits/8 );
@@ -1842,7 +1842,7 @@ static void bufr_put_desc_value ( BUFR_Message *bufr, BufrDescriptor *bd )
                   if (bufr_is_missing_double( dval ))
                      sprintf( errmsg, _("MSNG --> %llu"), (unsigned long long)ui64val );
                   else
-                     sprintf( errmsg, _("%f --> %llu"), dval, (unsigned long long)ui64val );
+                     snprintf( errmsg, sizeof(errmsg), _("%f --> %llu"), dval, (unsigned long long)ui64val );
                   bufr_print_debug( errmsg );
                   }
                }
@@ -1876,7 +1876,7 @@ static void bufr_put_desc_value ( BUFR_Message *bufr, BufrDescriptor *bd )
                   if (bufr_is_missing_double( dval ))
                      sprintf( errmsg, _("MSNG --> %llu"), (unsigned long long)ui64val );
                   else
-                     sprintf( errmsg, _("%f --> %llu"), dval, (unsigned long long)ui64val );
+                     snprintf( errmsg, sizeof(errmsg), _("%f --> %llu"), dval, (unsigned long long)ui64val );
                   bufr_print_debug( errmsg );
                   }
                }
